@@ -12,7 +12,7 @@ def repo_commits(prefix):
 CHECKS = {
     "C01": ("exploration",
             "property-based testing (proptest): generated dictionaries x options x sentences judged by a validity predicate over every token accessor",
-            "Held on every generated (dictionary, options, sentence) triple: ~280k tokenizations per quick run (22k generated dictionaries x options x sentences, incl. 200-character and 20,000-character sentences) over matrix/raw/dual connectors, user lexicons, id mappings, astral/U+0000/U+FFFF characters. A for-all-inputs claim can only be explored, not proved, with this technique.",
+            "Held on every generated (dictionary, options, sentence) triple: ~280k tokenizations per quick run (22k generated dictionaries x options x sentences, incl. 200-character and 20,000-character sentences) over matrix/raw/dual connectors, user lexicons, id mappings, astral/U+0000/U+FFFF characters. A for-all-inputs claim can only be explored, not proved, with this technique. A stress sub-check adds 20 000-character sentences and sentences with 70 000 skipped space characters; char.def files declare up to 254 categories (SPACE possibly beyond the 18 assignable ones) and options are put in place through generated setter histories.",
             "Trusts the harness's independent reference (char classes, dictionary rows by word index). Domain excludes: categories without unk.def entries and range lines covering U+0000 (open known findings), costs overflowing i32. Termination by watchdog.",
             "5/C01"),
     "C02": ("exploration",
@@ -27,62 +27,62 @@ CHECKS = {
             "5/C03"),
     "C04": ("exploration",
             "stateful property-based testing (proptest): generated operation histories interpreted against the model 'tokens == tokens of a fresh worker'; multi-threaded stress with generated per-thread histories; compile-time Send+Sync probe",
-            "Held on ~8k sequential histories (1-30 operations incl. shorter-after-longer, empty, repeated tokenize, counter updates) and ~1.9k concurrent runs (4 and 16 workers over one shared tokenizer, each history repeated 12 times) per quick run; ~1M tokenizations compared exactly with fresh-worker results; the concurrent runs are repeated under ThreadSanitizer (no data race on any explored schedule).",
+            "Held on ~8k sequential histories (1-30 operations incl. shorter-after-longer, empty, repeated tokenize, counter updates) and ~1.9k concurrent runs (4 and 16 workers over one shared tokenizer, each history repeated 12 times) per quick run; ~1M tokenizations compared exactly with fresh-worker results; the concurrent runs are repeated under ThreadSanitizer (no data race on any explored schedule). A long-history sub-check (640 cases per quick run, ~38M tokenizations) puts 65532-65538, 131068-131074 or 252-258 filler tokenizations between two sentences on one worker and compares every one of them with a fresh worker.",
             "The harness does not own the thread schedule (no synchronisation primitives exist in the code to model): the concurrency clause is a stress test plus a type-level check plus a ThreadSanitizer pass; a logic race through atomics is found only probabilistically.",
             "5/C04"),
     "C05": ("exploration",
             "property-based testing (proptest): byte-level round trip + differential testing of D against read(write(D)) under generated operation sequences; image exchange between the portable and the AVX2 build",
-            "Held on 1.5k generated dictionaries per quick run (all connector kinds, +-user lexicon, +-mapping, 0-5 later operations with a second round trip at a generated position): identical bytes, lengths, tokens, all connection costs; 2x60 images exchanged between builds.",
+            "Held on 1.5k generated dictionaries per quick run (all connector kinds, +-user lexicon, +-mapping, 0-5 later operations with a second round trip at a generated position): identical bytes, lengths, tokens, all connection costs; 2x60 images exchanged between builds. A scale sub-check round-trips dictionaries whose posting lists hold 252-259, 510-514 or 65533-65539 homographs (system and user lexicon, word-id offsets up to 66 000).",
             "Both sides start from the same image. Arbitrary corruption of image bodies is outside the claim. Cross-build clause needs a CPU with AVX2 (skipped and reported otherwise).",
             "5/C05"),
     "C06": ("exploration",
             "metamorphic property-based testing (proptest): mapped vs unmapped dictionary under generated permutations and operation orders; negative generation of malformed mappings",
-            "Held on 8k generated (dictionary, permutation pair(s), step order) cases and 10k malformed mappings per quick run: tokens equal modulo pi, cost'(pi_R r, pi_L l) == cost(r,l) for all pairs incl. id 0, for matrix/raw/dual, user lexicon before/after mapping, two mappings, write/read in between.",
+            "Held on 8k generated (dictionary, permutation pair(s), step order) cases and 10k malformed mappings per quick run: tokens equal modulo pi, cost'(pi_R r, pi_L l) == cost(r,l) for all pairs incl. id 0, for matrix/raw/dual, user lexicon before/after mapping, two mappings, write/read in between. An extreme-size sub-check remaps matrix connectors with 65535 (the largest announceable), 65530-65534, 32767-32769 and 255-257 ids on one side under six histories.",
             "Orientation of mapping lists as in the map tool. Ties tolerated only when the reference lattice proves several optimal paths.",
             "5/C06"),
     "C08": ("exploration",
             "differential and stateful property-based testing (proptest): user lexicon vs extended system lexicon through the lattice dump; load/replace/clear histories against a last-writer-wins model; negative generation of invalid user CSVs",
-            "Held on 10k (dictionary, user rows) cases x sentences x options for candidate/optimum equivalence, 3k load/replace/clear histories (identical observations and images), 8k invalid user CSVs (Err, no panic) per quick run, on unmapped and mapped dictionaries.",
+            "Held on 10k (dictionary, user rows) cases x sentences x options for candidate/optimum equivalence, 3k load/replace/clear histories (identical observations and images), 8k invalid user CSVs (Err, no panic) per quick run, on unmapped and mapped dictionaries. Half of the cases run on id-mapped dictionaries (user lexicon loaded before one mapping, before two successive mappings, or after the mapping; the same mappings on both sides).",
             "Candidate order differs between the two lexicon layouts, so token sequences are compared only under a unique optimum.",
             "5/C08"),
     "C07": ("exploration",
             "property-based testing (proptest) with a reference-model oracle (naive feature-pair sums), bounded-exhaustive scorer lookups per generated key set, differential tokenization raw/dual/materialised matrix, and a portable<->AVX2 exchange of generated models",
-            "Held on 10k generated bigram models per quick run (K in 1..20 incl. <8, 8, 9-16, >16; ragged rows, shared strings, BOS/EOS lines, clamp regime) for EVERY id pair, 6k scorer key sets with every key of the universe looked up (7.5M lookups), 2x300 models whose costs were recomputed in the other build, and libFuzzer campaigns on the bigram builder in the portable and the AVX2 (unsafe gather code under ASan) build.",
+            "Held on 10k generated bigram models per quick run (K in 1..20 incl. <8, 8, 9-16, >16; ragged rows, shared strings, BOS/EOS lines, clamp regime) for EVERY id pair, 6k scorer key sets with every key of the universe looked up (7.5M lookups), 2x300 models whose costs were recomputed in the other build, and libFuzzer campaigns on the bigram builder in the portable and the AVX2 (unsafe gather code under ASan) build. Wide sub-checks use scorers with up to 40 000 entries and keys up to 70 000 and models with up to 300 ids, 33 templates and 6000 cost lines; a boundary regime draws costs from {-32768, +-32767, +-16384, ...} and the dual connector is asserted exact wherever every partial sum fits 16 bits (so -32768 itself is inside).",
             "Excluded and named: a feature literally named '*' in bigram.cost, duplicate cost lines. Dual is compared only where the reference proves nothing can have been clamped.",
             "5/C07"),
     "C09": ("fault_enumeration",
             "fault enumeration: every strict prefix of generated dictionary images and every single-byte substitution of the magic, plus property-based generation (proptest) of cuts, near-miss headers and random streams",
-            "Per quick run: 2 generated images with EVERY strict prefix read (exhaustive for those images), 6 more images with boundary-focused prefixes, all 21x255 magic substitutions for each of the 8 images, 1.5k generated faults, a libFuzzer campaign; ~0.95M reads, all rejected with Err.",
+            "Per quick run: 2 generated images with EVERY strict prefix read (exhaustive for those images), 6 more images with boundary-focused prefixes, all 21x255 magic substitutions for each of the 8 images, 1.5k generated faults, a libFuzzer campaign; ~0.95M reads, all rejected with Err. A third of the cut faults are placed within 12 bytes of a multiple of 2^9..2^22 (reader block sizes) on images of up to several MiB.",
             "Covers truncation and foreign/near-miss magic only, as the property states; corruption of image bodies is not asserted (crawdad's deserializer panics on some corrupted bodies).",
             "5/C09"),
     "C10": ("exploration",
             "property-based testing (proptest) with structured mutation: format-aware edits of valid generated file sets; oracles: totality (no panic), acceptance => safe tokenization, and a strict reference char.def parser for silent mis-assignment",
-            "Held on 60k mutated file sets per quick run (24% accepted, 76% rejected with an error value), 10k sequences of 1-3 mappings with a user lexicon before/after, and three libFuzzer campaigns (matrix builder, bigram builders, char.def against the strict reference parser; 216k executions); ~0.9M tokenizations of accepted dictionaries; char.def interpretation compared with the reference on ~14k accepted dictionaries.",
+            "Held on 60k mutated file sets per quick run (24% accepted, 76% rejected with an error value), 10k sequences of 1-3 mappings with a user lexicon before/after, and three libFuzzer campaigns (matrix builder, bigram builders, char.def against the strict reference parser; 216k executions); ~0.9M tokenizations of accepted dictionaries; char.def interpretation compared with the reference on ~14k accepted dictionaries. The value vocabulary includes integers at the limits of u16/u32/u64/usize/i64 (decimal and hexadecimal) and cells of 4097 and 9000 bytes.",
             "Open known finding excluded by construction and counted: accepted category without unk.def entries. Clause (3) is conditional on the reference parser being able to read the mutated file.",
             "5/C10"),
     "C11": ("exploration",
             "property-based testing (proptest), round trip by construction: logical rows -> rendered CSV -> dictionary -> word_feature / lattice candidates",
-            "Held on 30k generated CSVs per quick run (quoted surfaces, verbatim quoted feature cells, homographs, nested prefixes, empty surfaces, ids up to 65534, i16 extremes, blank lines incl. trailing, missing final newline; system and user lexicon).",
+            "Held on 30k generated CSVs per quick run (quoted surfaces, verbatim quoted feature cells, homographs, nested prefixes, empty surfaces, ids up to 65534, i16 extremes, blank lines incl. trailing, missing final newline; system and user lexicon). A scale sub-check builds lexicons with 252-259, 510-514 or 65533-65539 rows sharing one surface.",
             "LF only; no line breaks inside quoted fields; no U+0000 in surfaces.",
             "5/C11"),
     "C12": ("exploration",
             "metamorphic property-based testing (proptest): re-spaced variants of one sentence, cross-checked against the reference Viterbi with gap skipping",
-            "Held on 20k generated (dictionary, chunk list, 4 re-spacings) cases per quick run; 40% have an unknown token next to a gap, 30% a non-zero connection cost across a gap; spaces-only sentences and missing SPACE also checked.",
+            "Held on 20k generated (dictionary, chunk list, 4 re-spacings) cases per quick run; 40% have an unknown token next to a gap, 30% a non-zero connection cost across a gap; spaces-only sentences and missing SPACE also checked. About one space run in 128 has 255, 256, 257, 65535, 65536, 65537, 70000 or 131072 characters.",
             "Precondition built into the generator (SPACE exclusive to the space characters, no surface contains a space).",
             "5/C12"),
     "C13": ("exploration",
             "stateful property-based testing (proptest): the reorder tool's loop over generated line histories against an independent recount in the reference lattice, then reorder->map->tokenize",
-            "Held on 10k generated histories of 0-12 lines per quick run (connectors with up to 48 ids per side) with the id lists verified after every prefix (70k verifications), plus 40 pipelines through the real compile/reorder/map/tokenize binaries, incl. empty first/inner lines, repeated lines, no lines; the final lists were always accepted by map and preserved tokenization.",
+            "Held on 10k generated histories of 0-12 lines per quick run (connectors with up to 48 ids per side) with the id lists verified after every prefix (70k verifications), plus 40 pipelines through the real compile/reorder/map/tokenize binaries, incl. empty first/inner lines, repeated lines, no lines; the final lists were always accepted by map and preserved tokenization. A scale sub-check feeds sentences with more than 65535 nodes starting at one position (homographs, three start positions, unknown entries) to the same recount oracle.",
             "Default tokenizer options as in the tool. Probabilities to 1e-12 relative.",
             "5/C13"),
     "C14": ("exploration",
             "property-based testing (proptest) with a reference-model oracle: generated training configurations are trained, and the emitted files are compared field by field with an independent merge of the raw model read through a hook",
-            "Held on 4k generated training configurations per quick run (each incl. a CRF training run): row order, surfaces (incl. commas/quotes), verbatim features, class ids, every cost == trunc(-w*32767/max|w|), every matrix cell and the header, user rows (0,0,0 vs explicit), compilation of the emitted files; 78% of cases have virtual edges, 48% user rows given as 0,0,0.",
+            "Held on 4k generated training configurations per quick run (each incl. a CRF training run): row order, surfaces (incl. commas/quotes), verbatim features, class ids, every cost == trunc(-w*32767/max|w|), every matrix cell and the header, user rows (0,0,0 vs explicit), compilation of the emitted files; 78% of cases have virtual edges, 48% user rows given as 0,0,0. The training generator includes surfaces and cells of about 2 KiB whose first comma or quote sits at byte 2040-2054, two-digit column indices and rows of 11-22 cells.",
             "Small models only. Trusts the hook's plain-data view of the raw model (weights, index tables, feature-id lists). Open known finding excluded by construction and counted: empty bigram weight table + user lexicon (panic inside rucrf).",
             "5/C14"),
     "C15": ("exploration",
             "stateful property-based testing (proptest): differential testing of the in-memory model against read_model(write_model(M)) under generated operation histories",
-            "Held on 3k generated (model, history) cases per quick run: after every generation all seven output files agree (bigram.cost as a multiset), generating twice agrees, write_model reports its length; 36% add a user lexicon after the round trip.",
+            "Held on 3k generated (model, history) cases per quick run: after every generation all seven output files agree (bigram.cost as a multiset), generating twice agrees, write_model reports its length; 36% add a user lexicon after the round trip. Half of the cases use templates without literal prefix and empty cells (empty and '*' feature strings).",
             "User entries are not part of the model file, so they are added after the round trip on both sides (as dictgen does).",
             "5/C15"),
     "C16": ("exploration",
@@ -92,7 +92,7 @@ CHECKS = {
             "5/C16"),
     "C17": ("exploration",
             "property-based testing (proptest) with a reference-model oracle (first matching rule in file order) plus bounded-exhaustive enumeration of a small rule/feature space",
-            "Held on 40k generated rule lists x 4 feature lists per quick run (prefix sharing forced, wildcard/literal/alternative interleaving incl. partially overlapping groups, absent $n) and on ALL 27,930 rule lists of <=3 rules x <=2 positions over {*,a,b,(a|b),(a|c)} against ALL 13 feature lists over {a,b,c} (exhaustive for that sub-space).",
+            "Held on 40k generated rule lists x 4 feature lists per quick run (prefix sharing forced, wildcard/literal/alternative interleaving incl. partially overlapping groups, absent $n) and on ALL 27,930 rule lists of <=3 rules x <=2 positions over {*,a,b,(a|b),(a|c)} against ALL 13 feature lists over {a,b,c} (exhaustive for that sub-space). A large-rule-list sub-check (21840-21850, 32760-32775, 65530-65545 and 40000-70000 rules, i.e. across 2^16 and 2^17 trie nodes) probes 600 feature lists per list against a linear first-match scan.",
             "Goes through the rewrite.def parser (section headers, decoy rules in the other sections) via a hook. '$0' and non-numeric references are outside the documented grammar.",
             "5/C17"),
     "C18": ("exploration",
@@ -102,12 +102,12 @@ CHECKS = {
             "5/C18"),
     "C19": ("exploration",
             "property-based testing (proptest): round trip render -> parse -> write -> parse over generated corpora with negative cases, and closure of the parser under the tokenizer's MeCab-style output",
-            "Held on 40k generated corpora (incl. surface 'EOS', empty features, dropped empty sentences, missing final newline, 10k malformed variants incl. invalid UTF-8 rejected), 8k dictionaries x options whose tokenizer output (incl. tokens with surface 'EOS') parsed back to exactly the tokens, 40 pipelines through the real compile/tokenize/split binaries and an 80k-execution libFuzzer campaign, per quick run.",
+            "Held on 40k generated corpora (incl. surface 'EOS', empty features, dropped empty sentences, missing final newline, 10k malformed variants incl. invalid UTF-8 rejected), 8k dictionaries x options whose tokenizer output (incl. tokens with surface 'EOS') parsed back to exactly the tokens, 40 pipelines through the real compile/tokenize/split binaries and an 80k-execution libFuzzer campaign, per quick run. 3% of the format cases stretch one surface or feature to 255...131072 bytes; some tokenizer-output cases tokenize a run of 66 000 characters.",
             "Inputs exclude tab and every Unicode line-break character (conservative reading). The CLI binaries are exercised on 40 (quick) / 600 (thorough) generated pipelines.",
             "5/C19"),
     "C20": ("exploration",
             "property-based testing (proptest) with a reference-model oracle: generated MeCab model descriptions converted, compiled with the raw connector and compared on every pair of non-zero ids (accessor and two-token probe sentences)",
-            "Held on 20k generated model descriptions per quick run (1-8 templates with optional references, 1-8 ids per side, 4 cost factors, unrealisable (one- and two-sided)/zero/truncating weights, BOS/EOS lines), ~370k id pairs, 80k black-box probes; ~2k error variants rejected.",
+            "Held on 20k generated model descriptions per quick run (1-8 templates with optional references, 1-8 ids per side, 4 cost factors, unrealisable (one- and two-sided)/zero/truncating weights, BOS/EOS lines), ~370k id pairs, 80k black-box probes; ~2k error variants rejected. Column indices include 9-12, 19-21 and 100; id rows have 1-4 and occasionally 11-22 cells.",
             "Reference expansion written from the property statement (not from the code's crossed file naming), so a single left/right swap changes costs and is detected.",
             "5/C20"),
 }
